@@ -200,3 +200,30 @@ Section Post.
     intros j s vs s' H. rewrite dec_S in H. exact (dec_body_post _ IH _ _ _ _ H).
   Qed.
 End Post.
+
+(* ---------- a tiny concrete universe for the Examples of NoPanic.v / Total.v ---------- *)
+(* struct 0: crc 100, flags word at index 0, fields
+     a : flags.0?int   b : flags.1?Object   c : Vector<*struct0>   d : flags.2?true
+   enum type 0 with the value 200; the message container and gzip_packed are registered *)
+Definition exU : universe := {|
+  u_structs := [ {| s_crc := Some 100; s_flagidx := Some 0%nat;
+                    s_fields := [ {| f_ty := TI32; f_tag := TagFlag 0 |};
+                                  {| f_ty := TIface 0; f_tag := TagFlag 1 |};
+                                  {| f_ty := TVec (TPtr 0); f_tag := TagNone |};
+                                  {| f_ty := TBool; f_tag := TagBit 2 |} ];
+                    s_impls := [0%N] |} ];
+  u_enum_impls := [[0%N]];
+  u_reg := [(100%N, RStruct 0); (200%N, REnum 0); (crc_container, RContainer); (crc_gzip, RGzip)];
+  u_true := 0; u_false := 0; u_null := 0 |}.
+
+(* struct0 { flags = 0b011, a = 7, b = enum 200, c = [] } *)
+Definition ex_obj : bytes :=
+  le32 100 ++ le32 3 ++ le32 7 ++ le32 200 ++ le32 crc_vector ++ le32 0.
+
+(* msg_container { one message: msg_id 1, seq 2, 4 bytes of body } *)
+Definition ex_container : bytes :=
+  le32 crc_container ++ le32 1 ++ le64 1 ++ le32 2 ++ le32 4 ++ [1; 2; 3; 4]%N.
+
+(* a toy oracle: the gzip payload [9] inflates to ex_obj *)
+Definition ex_inflate (p : bytes) : option bytes := if beq p [9%N] then Some ex_obj else None.
+Definition ex_gzip : bytes := le32 crc_gzip ++ [1; 9; 0; 0]%N.
